@@ -28,6 +28,13 @@ pub axiom fn ax_ref_eq<A: PartialEq>()
 pub open spec fn a_eq<A: PartialEq>(x: A, y: &A) -> bool { <A as PartialEqSpec<A>>::eq_spec(&x, y) }
 // user key types: a clone is the same abstract key (Clone/Eq/Hash coherence, assumed)
 pub axiom fn ax_clone_is_equal<A: Clone>() ensures forall|a: &A, b: A| #[trigger] call_ensures(A::clone, (a,), b) ==> *a == b;
+// scanning path: the infoset's action list and the position of an action in it (the
+// `iter().enumerate().find(|(_, act)| act == &action)` chain: first position holding an equal action)
+pub struct InfoActions<A> { pub actions: Box<[A]> }
+#[verifier::external_body]
+pub fn __abs_position<A>(actions: &Box<[A]>, action: &A) -> (r: Option<usize>)
+    ensures match r { Some(i) => i < actions@.len() && actions@[i as int] == *action, None => !actions@.contains(*action) },
+{ unimplemented!() }
 // a weight the import accepts: >= 0 (so not NaN) and finite
 pub open spec fn legal(p: f64) -> bool { fge(p, 0.0f64) && fisfinite(p) }
 """
@@ -79,6 +86,26 @@ ensures
     !(a_eq(baction.bview(), *old(act))) ==> out == Err::<(), StratError>(StratError::InvalidAction) && *final(seen) == *old(seen), // @ob C14.V.hash_import.single_rejects_other_action
     a_eq(baction.bview(), *old(act)) && !legal(bprob.bview()) ==> out == Err::<(), StratError>(StratError::InvalidProbability) && *final(seen) == *old(seen), // @ob C14.V.hash_import.single_rejects_bad_weight
     a_eq(baction.bview(), *old(act)) && legal(bprob.bview()) ==> out is Ok && *final(seen), // @ob C14.V.hash_import.single_marks_seen"""),
+        dict(file="src/lib.rs", path="impl Game / fn strat_into_box_slow", loop=2, n_loops=6,
+             header_re=r"^for \(baction, bprob\) in actions$",
+             as_fn="strat_into_box_slow__multi_entry", generics="<A, BA: Borrow<A>, BP: Borrow<f64>>",
+             params="baction: BA, bprob: BP, info: &InfoActions<A>, info_ind: usize, dense: &mut Box<[f64]>",
+             ret="out", ret_type="Result<(), StratError>", exit="Ok(())", allow_return=True,
+             obligation="C14.V.scan_import.multi_entry",
+             rules=["R3", "R1", "R9", "R10"],
+             body_subst=[(r"let \(act_ind, _\) = info\s*\.actions\s*\.iter\(\)\s*\.enumerate\(\)\s*\.find\(\|\(_, act\)\| act == &action\)\s*\.ok_or\(StratError::InvalidAction\)\?;",
+                          "let act_ind = __abs_position(&info.actions, action).ok_or(StratError::InvalidAction)?;", "R6 position of the action in the infoset's list (enumerate/find chain)")],
+             entry="broadcast use fl;\nproof { ax_obeys(); ax_ieee_class(); }\nlet ghost __l = dense.len(); // brings `len() <= usize::MAX` into scope",
+             contract="""requires
+    info_ind + info.actions@.len() <= old(dense)@.len(),
+ensures
+    final(dense)@.len() == old(dense)@.len(),
+    // the scanning importer applies the same rules to an (action, weight) entry as the hashing one
+    !legal(bprob.bview()) ==> out == Err::<(), StratError>(StratError::InvalidProbability) && final(dense)@ == old(dense)@, // @ob C14.V.scan_import.rejects_bad_weight
+    legal(bprob.bview()) && !info.actions@.contains(baction.bview()) ==> out == Err::<(), StratError>(StratError::InvalidAction) && final(dense)@ == old(dense)@, // @ob C14.V.scan_import.rejects_unknown_action
+    legal(bprob.bview()) && info.actions@.contains(baction.bview()) ==> out is Ok
+        && exists|i: int| 0 <= i < info.actions@.len() && info.actions@[i] == baction.bview()
+            && final(dense)@ == old(dense)@.update(info_ind + i, bprob.bview()), // @ob C14.V.scan_import.stores_weight"""),
         # table construction: every action of every multi-action infoset gets the next dense index, in
         # infoset order and action order (the layout the named view and the solvers use)
         dict(file="src/lib.rs", path="impl Game / fn strat_into_box", loop=1, n_loops=7,
